@@ -351,6 +351,8 @@ func (m c10) setup(k int, null bool, a Val) ([]*TypeSpec, *ResSpec, []jsonapi.Re
 	return specs, rs, ress, pi
 }
 
+var c10invalidUTF8 = []string{"\xff", "\xfe", "a\xff", "a\U00010000", "a\uffff", "k\xc3", "k\xc3\xa9", "\xe4\xb8", "\xe4\xb9", "id-\x80", "id-\x81", "\xef\xbf\xbd", "\xed\xa0\x80", "\xc0\xaf"}
+
 func (m c10) Case(c *Ctx, r *RNG) {
 	k := allKinds[r.Intn(len(allKinds))]
 	null := r.Bool()
@@ -371,6 +373,11 @@ func (m c10) Case(c *Ctx, r *RNG) {
 		if !a.IsNil() {
 			b = differentVal(a)
 		}
+	}
+	if k == KString && !a.IsNil() && !b.IsNil() && r.Chance(1, 5) {
+		// Go strings need not be valid UTF-8: the order is the byte-wise one
+		a.S, b.S = r.Pick(c10invalidUTF8), r.Pick(c10invalidUTF8)
+		c.Count("string_pairs_with_invalid_utf8")
 	}
 	specs, rs, ress, pi := m.setup(k, null, a)
 	if pi != nil {
